@@ -415,8 +415,12 @@ def culprit(raw, quotable, got, want):
     return raw[i] if i < len(raw) else None
 
 
+LAST = {"emitted": False}
+
+
 def oracle(case):
     """None if the property holds on this case, else (key, message)."""
+    LAST["emitted"] = False
     ck = C()
     name = "".join(chr(c) for c in case["name"])
     value = dec_value(case.get("value"))
@@ -467,6 +471,7 @@ def oracle(case):
                 "%s: %s, but %r was emitted" % (api, must_raise, line))
     if not isinstance(line, str):
         return "not-text", "result %r is not a str" % (line,)
+    LAST["emitted"] = True
 
     # ---- printable ASCII only
     bad = [c for c in line if not (32 <= ord(c) <= 126)]
@@ -523,8 +528,11 @@ def oracle(case):
                 return "attr-changed:" + k, "%s has no value in %r" % (k, line)
             got, exposed = spec_unescape(raw.encode("ascii"), k == "Comment")
             if exposed is not None:
+                jar = ck.Cookie(line)
                 return ("delimiter-exposed:%02x" % exposed,
-                        "%s=%r emitted as %r: octet %#x outside an escaped form" % (k, w, raw, exposed))
+                        "%s=%r emitted as %r: octet %#x outside an escaped form (webob's own Cookie(%r) then reads %s=%r and "
+                        "holds cookies %r)" % (k, w, raw, exposed, line, k, (jar.get(name_octets) or {}).get(k.lower().encode()),
+                                               sorted(jar.keys())))
             if got != w:
                 return "attr-changed:" + k, "%s requested as %r, emitted as %r which denotes %r" % (k, w, raw, got)
     missing = [k for k in want if k not in seen]
@@ -883,6 +891,7 @@ def run(ctx):
                 "str", bs, lambda b: b.decode("utf-8"), cstr)
 
     # make_cookie / set_cookie: the model gets the rendered date as its abstract input
+    dates = set()
     for api, fn in (("make_cookie", "make_cookie"), ("set_cookie", "set_cookie")):
         cases = []
         jcases = []
@@ -892,6 +901,8 @@ def run(ctx):
                 continue
             r, _, _ = call_api(c)
             date = split_date(r) if isinstance(r, str) else ""
+            if date:
+                dates.add(date)
             cases.append((cpair(cbool(c["validate"]), c_request(c, date)), r, c))
             jcases.append(c)
         bad = ctx.corr(api, IMPORTS, "(fun c => res_val VStr (%s (fst c) (snd c)))" % fn, cases, in_type="(bool * request)")
@@ -903,15 +914,26 @@ def run(ctx):
                 ctx.broken.append("correspondence %s: model and implementation disagree on %s (implementation gives %r)"
                                   % (api, json.dumps(jcases[i]), cases[i][1]))
 
+    # the hypotheses the theorems put on the abstract date hold for every date webob actually rendered
+    if getattr(ctx, "build_ok", False) and dates:
+        ds = sorted(dates)
+        cases = [(cstr(d), True, {"fn": "date-hypotheses", "input": d}) for d in ds]
+        bad = ctx.corr("date_hypotheses", IMPORTS + ["Webob.Spec.C07_CookieSpec", "Webob.Proofs.C07_reparse"],
+                       "(fun d => VBool (cookie_date d && plain d))", cases, in_type="str")
+        for i in bad[:3]:
+            ctx.broken.append("rendered date %r does not satisfy the date hypotheses (cookie_date, plain) of the theorems" % ds[i])
+
     # ------------------------------------------------------------------ oracle sweep on the public API
     run_oracle(ctx)
     ctx.extra["rule"] = (
         "correspondence: each model function against the real function on generated inputs (all 256 single octets, random "
         "byte strings weighted towards the three alphabets and the delimiters, noisy Cookie/Set-Cookie headers, requests with "
         "valid and malformed names/SameSite values); distinct = distinct Coq input literals.  oracle: the statement evaluated on "
-        "make_cookie / Response.set_cookie / Cookie / parse_cookie / Request.cookies; a case is non-trivial when a line was "
-        "emitted and read back (cases that must raise are counted separately)")
-    ctx.extra["exhaustive"] = ("all 1- and 2-byte cookie values (65 792) through make_cookie and back through parse_cookie, "
+        "make_cookie / Response.set_cookie / Cookie / parse_cookie / Request.cookies; a case counts as distinct non-trivial when "
+        "it is a new case (by its JSON form) on which a line was emitted, split, decoded and read back (cases that must raise "
+        "are evaluated but not counted)")
+    ctx.extra["exhaustive"] = False
+    ctx.extra["exhaustive_parts"] = ("all 1- and 2-byte cookie values (65 792) through make_cookie and back through parse_cookie, "
                                "Cookie and Request.cookies; all strings of length <= %d over a 15-symbol delimiter alphabet as "
                                "path, domain and comment" % ctx.scale(2, 3))
     ctx.assume += [
@@ -921,8 +943,9 @@ def run(ctx):
         "is the entry point for arbitrary text (utf-8)",
         "cookie values that are not valid UTF-8 round-trip exactly at parse_cookie level; request.cookies is a text API and "
         "raises UnicodeDecodeError for them",
-        "the rendered expires date is an abstract input of the model; the oracle checks its format and that it equals "
-        "utcnow()+max_age",
+        "the rendered expires date is an abstract input of the model (hypotheses: plain, i.e. printable without ';' '\"' '\\', and "
+        "cookie_date, i.e. taken in full by the expires alternative of the scanner); both are evaluated in Coq on every date "
+        "webob rendered during the run, and the oracle checks format, weekday and value = utcnow()+max_age",
         "with SAMESITE_VALIDATION off a free-form SameSite value is copied verbatim (outside the statement: only token-like "
         "values are checked then)",
         "names that are tokens but start with '$' or spell an attribute name are refused by webob as well (stricter than asked)",
@@ -938,46 +961,57 @@ def run(ctx):
     ]
 
 
+class Tally:
+    """evaluations, and distinct cases on which a line was emitted, checked and read back (non-trivial)."""
+
+    def __init__(self, ctx, name):
+        self.ctx, self.name = ctx, name
+        self.n = 0
+        self.seen = set()
+        self.nontrivial = 0
+
+    def check(self, case, fast=None):
+        self.n += 1
+        res = oracle_fast(fast) if fast is not None else oracle(case)
+        key = json.dumps(case, sort_keys=True)
+        if key not in self.seen:
+            self.seen.add(key)
+            if fast is not None or LAST["emitted"]:
+                self.nontrivial += 1
+        if res:
+            self.ctx.fail(res[0], res[1], case, True, self.name)
+
+    def done(self):
+        self.ctx.oracle_count(self.name, self.n, self.nontrivial)
+
+
 def run_oracle(ctx):
-    ck = C()
     # (1) exhaustive 1- and 2-byte values
-    cnt = nt = 0
+    t = Tally(ctx, "values-1-2-bytes")
     full_every = ctx.scale(7, 1)
     for ln in (0, 1, 2):
-        for t in itertools.product(range(256), repeat=ln):
-            v = bytes(t)
-            cnt += 1
-            if ln < 2 or (t[0] * 256 + t[1]) % full_every == 0:
-                res = oracle(value_case(v))
+        for tup in itertools.product(range(256), repeat=ln):
+            v = bytes(tup)
+            if ln < 2 or (tup[0] * 256 + tup[1]) % full_every == 0:
+                t.check(value_case(v))
             else:
-                res = oracle_fast(v)
-            nt += 1
-            if res:
-                ctx.fail(res[0], res[1], value_case(v), True, "values-1-2-bytes")
-    ctx.oracle_count("values-1-2-bytes", cnt, nt)
+                t.check(value_case(v), fast=v)
+    t.done()
     # (2) path / domain / comment over the delimiter alphabet
-    cnt = 0
+    t = Tally(ctx, "attrs-delimiters")
     depth = ctx.scale(2, 3)
     for ln in range(1, depth + 1):
-        for t in itertools.product(DELIM_ALPHA, repeat=ln):
-            v = b"".join(t)
+        for tup in itertools.product(DELIM_ALPHA, repeat=ln):
+            v = b"".join(tup)
             for attr in ("path", "domain", "comment"):
-                cnt += 1
-                c = attr_case(attr, v)
-                res = oracle(c)
-                if res:
-                    ctx.fail(res[0], res[1], c, True, "attrs-delimiters")
+                t.check(attr_case(attr, v))
     rng = ctx.sub_rng("attrs3")
     for _ in range(ctx.scale(1500, 0)):     # quick tier: a sample of the length-3 strings
         v = b"".join(rng.choice(DELIM_ALPHA) for _ in range(3))
-        c = attr_case(rng.choice(["path", "domain", "comment"]), v)
-        cnt += 1
-        res = oracle(c)
-        if res:
-            ctx.fail(res[0], res[1], c, True, "attrs-delimiters")
-    ctx.oracle_count("attrs-delimiters", cnt, cnt)
+        t.check(attr_case(rng.choice(["path", "domain", "comment"]), v))
+    t.done()
     # (3) all attribute combinations x validation flag x both entry points
-    cnt = nt = 0
+    t = Tally(ctx, "attr-combinations")
     for api in ("make_cookie", "set_cookie"):
         for validate in (True, False):
             for ma in (None, 0, 7, -5, ["td", 1, 1, 5], ["td", -1, 86399, 0]):
@@ -986,57 +1020,36 @@ def run_oracle(ctx):
                         for ss in [None] + SAMESITE_OK[:3] + ["None", "foo", "", "future"]:
                             for value in (b"v", b"a b;c", None):
                                 for path, domain, comment in ((b"/", None, None), (None, b"d.example", b"c c"), (b"/;x", b"e,v", b'"q"')):
-                                    c = {"api": api, "validate": validate, "name": [115, 105, 100], "value": enc_value(value),
-                                         "max_age": ma, "secure": secure, "httponly": httponly,
-                                         "samesite": None if ss is None else enc_value(ss.encode()),
-                                         "path": enc_value(path), "domain": enc_value(domain), "comment": enc_value(comment)}
-                                    cnt += 1
-                                    res = oracle(c)
-                                    if res:
-                                        ctx.fail(res[0], res[1], c, True, "attr-combinations")
-    ctx.oracle_count("attr-combinations", cnt, cnt)
-    # (4) names: every ASCII octet as a one-letter name and inside a name; the malformed lists
-    cnt = 0
+                                    t.check({"api": api, "validate": validate, "name": [115, 105, 100], "value": enc_value(value),
+                                             "max_age": ma, "secure": secure, "httponly": httponly,
+                                             "samesite": None if ss is None else enc_value(ss.encode()),
+                                             "path": enc_value(path), "domain": enc_value(domain), "comment": enc_value(comment)})
+    t.done()
+    # (4) names: every octet as a one-letter name and inside a name; the malformed lists
+    t = Tally(ctx, "names")
     for i in range(0, 256):
         for nm in (chr(i), "a" + chr(i), chr(i) + "a", "a" + chr(i) + "b"):
             for api in ("make_cookie", "set_cookie"):
-                c = {"api": api, "name": [ord(x) for x in nm], "value": enc_value(b"v"), "path": None, "validate": True}
-                cnt += 1
-                res = oracle(c)
-                if res:
-                    ctx.fail(res[0], res[1], c, True, "names")
+                t.check({"api": api, "name": [ord(x) for x in nm], "value": enc_value(b"v"), "path": None, "validate": True})
     for nm in BAD_NAMES + REFUSED_TOKENS + TOKEN_NAMES:
-        c = {"api": "set_cookie", "name": [ord(x) for x in nm], "value": enc_value("x y"), "validate": True}
-        cnt += 1
-        res = oracle(c)
-        if res:
-            ctx.fail(res[0], res[1], c, True, "names")
-    ctx.oracle_count("names", cnt, cnt)
+        t.check({"api": "set_cookie", "name": [ord(x) for x in nm], "value": enc_value("x y"), "validate": True})
+    t.done()
     # (5) random requests, Unicode values through set_cookie
     rng = ctx.sub_rng("oracle-random")
-    m = ctx.scale(6000, 120000)
-    for i in range(m):
-        c = r_case(rng, malformed=(i % 4 == 0))
-        res = oracle(c)
-        if res:
-            ctx.fail(res[0], res[1], c, True, "random-requests")
-    ctx.oracle_count("random-requests", m, m)
-    m = ctx.scale(3000, 60000)
-    for i in range(m):
-        t = r_text(rng, 8)
-        c = {"api": "set_cookie", "name": [110], "value": enc_value(t), "validate": True}
-        res = oracle(c)
-        if res:
-            ctx.fail(res[0], res[1], c, True, "unicode-values")
-    ctx.oracle_count("unicode-values", m, m)
+    t = Tally(ctx, "random-requests")
+    for i in range(ctx.scale(6000, 120000)):
+        t.check(r_case(rng, malformed=(i % 4 == 0)))
+    t.done()
+    t = Tally(ctx, "unicode-values")
+    for i in range(ctx.scale(3000, 60000)):
+        t.check({"api": "set_cookie", "name": [110], "value": enc_value(r_text(rng, 8)), "validate": True})
+    t.done()
     # (6) longer byte values
-    m = ctx.scale(4000, 80000)
-    for i in range(m):
+    t = Tally(ctx, "values-longer")
+    for i in range(ctx.scale(4000, 80000)):
         v = bytes(rng.randrange(256) for _ in range(rng.randrange(3, 12))) if i % 2 else r_bytes(rng, 12)
-        res = oracle(value_case(v, api=rng.choice(["make_cookie", "set_cookie"])))
-        if res:
-            ctx.fail(res[0], res[1], value_case(v), True, "values-longer")
-    ctx.oracle_count("values-longer", m, m)
+        t.check(value_case(v, api=rng.choice(["make_cookie", "set_cookie"])))
+    t.done()
 
 
 def oracle_fast(v):
